@@ -132,7 +132,7 @@ def open_subject(rng, kind: str, tmp: Path, which=None) -> Subject:
 
 # ---- operations -------------------------------------------------------------------------------------------
 
-OPS = ["body", "meta", "styles", "add_file_path", "add_file_io", "add_same", "add_same", "del_part", "del_picture", "del_last", "read_part", "set_raw", "frame", "merge", "parts", "read_xml", "del_rdf"]
+OPS = ["body", "meta", "styles", "add_file_path", "add_file_io", "add_same", "add_same", "add_same_path", "add_same_path", "del_part", "del_picture", "del_last", "read_part", "set_raw", "frame", "merge", "parts", "read_xml", "del_rdf"]
 
 
 def gen_op(rng, s: Subject):
@@ -147,6 +147,8 @@ def gen_op(rng, s: Subject):
         return (k, rng.choice(["png", "jpg", "blob"]), rng.randrange(4))
     if k == "add_same":
         return ("add_same",)
+    if k == "add_same_path":
+        return ("add_same_path",)
     if k == "del_part":
         cands = [n for n in s.files if n not in XML_TOP and n != "mimetype" and not n.endswith("/")]
         return ("del_part", rng.choice(sorted(cands))) if cands else ("body", "x")
@@ -211,6 +213,17 @@ def apply_op(s: Subject, op, tmp: Path):
             s.log[-1] = ["noop"]
             return "NOOP"
         uri = doc.add_file(io.BytesIO(last[1]))
+        s.files[uri] = last[1]
+        s.last_uri = uri
+    elif o == "add_same_path":
+        # the bytes added last, this time from a file with an extension: another name for the same content
+        last = getattr(s, "last_added", None)
+        if last is None:
+            s.log[-1] = ["noop"]
+            return "NOOP"
+        pth = tmp / f"same-{hashlib.md5(last[1]).hexdigest()[:8]}.png"
+        pth.write_bytes(last[1])
+        uri = doc.add_file(pth)
         s.files[uri] = last[1]
         s.last_uri = uri
     elif o == "del_part":
@@ -406,7 +419,7 @@ class Mirror:
         o = op[0]
         if refused:
             return
-        if o in ("add_file_path", "add_file_io", "add_same", "frame"):
+        if o in ("add_file_path", "add_file_io", "add_same", "add_same_path", "frame"):
             uri, data = s.last_uri, s.files[s.last_uri]
             m = s.doc.manifest.get_media_type(uri)
             self.send(s, f"addfile {self.nid(uri)} {self.blob(uri, data)} {self.mt(m)}", "ok")
